@@ -238,15 +238,29 @@ func c06Gen(r *rand.Rand, tier string) []Case {
 			forest = []*c06Tree{t}
 		}
 		c = append(c, "limiter "+fmtList(forest), "rejectmsgs "+fmtList(forest))
-		// place a blocked message / grant at a uniformly chosen position
-		var pos []c06Pos
-		c06Positions(&forest, false, &pos)
-		if len(pos) > 0 {
+		// place one to three blocked messages / grants at uniformly chosen positions (replace, insert before, or
+		// append to the chosen list) — several of the same kind at different depths included
+		nb := pick(r, []int{1, 1, 2, 2, 3})
+		kind := pick(r, []*c06Tree{{kind: "E"}, {kind: "V"}, {kind: "G", url: "E"}, {kind: "G", url: "V"}})
+		for b := 0; b < nb; b++ {
+			var pos []c06Pos
+			c06Positions(&forest, false, &pos)
+			if len(pos) == 0 {
+				break
+			}
 			p := pos[r.Intn(len(pos))]
-			blk := pick(r, []*c06Tree{{kind: "E"}, {kind: "V"}, {kind: "G", url: "E"}, {kind: "G", url: "V"}})
-			if r.Intn(2) == 0 {
+			blk := &c06Tree{kind: kind.kind, url: kind.url}
+			if r.Intn(3) == 0 {
+				blk = pick(r, []*c06Tree{{kind: "E"}, {kind: "V"}, {kind: "G", url: "E"}, {kind: "G", url: "V"}})
+			}
+			switch r.Intn(3) {
+			case 0:
 				(*p.list)[p.idx] = blk
-			} else {
+			case 1:
+				l := append([]*c06Tree{}, (*p.list)[:p.idx]...)
+				l = append(l, blk)
+				*p.list = append(l, (*p.list)[p.idx:]...)
+			default:
 				*p.list = append(*p.list, blk)
 			}
 		}
